@@ -178,6 +178,9 @@ CHECKS = {
     "C08": Elementwise(["fp"], RULE_EW, {
         "quick": "every k/2 and its two neighbours for |k| <= 2^13, +-64-ulp windows at 2^22..2^25, 2^30..2^33, 2^51..2^54, 2^62..2^64, special lattice x all lane offsets, every binade x 64 mantissa patterns; results compared as numbers; all 22 architectures",
         "thorough": "as quick plus all 2^32 float32 bit patterns, |k| <= 2^16 and 256 mantissa patterns per double binade"}),
+    "C17": Elementwise(["scalar"], RULE_EW + "; the scalar overloads are run one element per call and judged by the same reference models as the batch lanes (so scalar == batch wherever the model is single-valued); NaN operands are outside the property", {
+        "quick": "the C01/C02/C03/C06/C07/C08 operand spaces (8-bit pairs exhaustive, ALL16 x L16, lattices^2, every shift/rotate count, fp lattices, rounding windows) for add, sub, mul, div, mod, neg, abs, min, max, sadd, ssub, avg, avgr, incr/decr(_if), bitwise operators, shifts, rotates, comparisons, select, is_flint/is_even/is_odd, fma family, nearbyint_as_int, bitwise_cast, clip, pow with 21 integer exponents (scalar and batch forms against the shared square-and-multiply model); all 22 architectures' compile flags",
+        "thorough": "as quick with the thorough spaces of the underlying properties"}),
 }
 
 
